@@ -178,6 +178,8 @@ def document(rnd, with_tags=False, nblocks=None, hazards=True):
 
 # hand-written documents for interplays the random blocks rarely produce; appended to every sweep
 TARGETED = [
+    # a paragraph line that starts with a three-backtick code span, before a tag-delimited block
+    "```code``` text here\n\n{% field %}\n- a\n- b\n{% /field %}\n",
     # definitions whose destination is spelled with pointy brackets / escapes (kept in the source spelling), heading text that is
     # nothing but '#' runs
     "[foo]: <my url>\n\n[foo] and [x][foo]\n", "[d]: a\\(b\n[e]: <>\n\n[d] and [x][d] [e]\n", "# # #\n\n## ## ##\n\ntext\n\n### # ###\n",
